@@ -112,7 +112,7 @@ fn piece(rng: &mut Rng, odd: bool) -> String {
         11 => "/**/".into(),
         // odd pieces: outside the documented grammar, still compared with the model and set-vs-glob
         12 => "**".into(),
-        13 => ["[a-b-]", "[a-b-e]", "[--a]", "[\\]]", "[!]a]"][rng.below(5)].into(),
+        13 => ["[a-b-]", "[a-b-e]", "[--a]", "[\\]]", "[!]a]", "[a-é]", "[é-日]", "[!é]", "{a,{b,c}}", "{{a,b},c}", "***", "{}", "{,}"][rng.below(13)].into(),
         14 => "}".into(),
         _ => ",".into(),
     }
@@ -203,6 +203,11 @@ fn gen_glob(rng: &mut Rng) -> G {
     }
     if rng.chance(1, 40) {
         text.push_str(["é", "[é]", "日", "[aé]", "é*"][rng.below(5)]);
+    }
+    if rng.chance(1, 80) {
+        // a long glob (literal / class units: the Lean model backtracks on wildcards)
+        let unit = ["ab", "a/", "[ab]"][rng.below(3)];
+        text = format!("{}{}", unit.repeat(rng.range(40, 120)), text);
     }
     G {
         ci: rng.chance(1, 4),
@@ -335,8 +340,8 @@ fn gen_paths(rng: &mut Rng, globs: &[G], n: usize) -> Vec<Vec<u8>> {
         match rng.below(10) {
             0..=5 => ps.push(rand_small_path(rng, 5)),
             6 => {
-                // longer
-                let n = rng.range(6, 14);
+                // longer, now and then very long
+                let n = if rng.chance(1, 40) { rng.range(100, 300) } else { rng.range(6, 14) };
                 ps.push((0..n).map(|_| *rng.pick(ALPHA)).collect());
             }
             7 => {
@@ -431,6 +436,7 @@ fn run_case(globs_in: &[G], paths: &[Vec<u8>], drv: &mut Driver, rep: &mut Repor
     let mut globs: Vec<G> = vec![];
     let mut built: Vec<Glob> = vec![];
     let mut doc_ok: Vec<bool> = vec![];
+    let mut strat_names: Vec<String> = vec![];
     for g in globs_in {
         let m = drv.ask(&format!("c12.parse {}", g.sx()));
         match g.build() {
@@ -445,13 +451,21 @@ fn run_case(globs_in: &[G], paths: &[Vec<u8>], drv: &mut Driver, rep: &mut Repor
             }
             Ok(b) => {
                 let f: Vec<&str> = m.split(' ').collect();
-                if f.len() != 6 || f[0] != "ok" {
+                if f.len() != 7 || f[0] != "ok" {
                     out.violations.push(mk("impl_vs_model", "", TIE_M, &[g.clone()], &[], format!("glob {:?} opts {}: impl builds, model says {}", g.text, g.bits(), m)));
                     continue;
                 }
                 if f[2] != hex(b.regex().as_bytes()) {
                     out.violations.push(mk("impl_vs_model", "", TIE_M, &[g.clone()], &[], format!("glob {:?} opts {}: Glob::regex() = {:?}, model prints {:?}", g.text, g.bits(), b.regex(), unhex(f[2]).map(|b| show(&b)))));
                     continue;
+                }
+                if f[6] == "1" {
+                    // documented: "Using `**` anywhere else is illegal" — the glob builds nevertheless (it is read as `*`s).
+                    // Mechanism = the predicate itself: Spec.GlobDoc.illegalDstar holds for this text and Glob::new is Ok.
+                    if !quiet {
+                        rep.branch("class:double-star-elsewhere-accepted:attributed");
+                    }
+                    out.violations.push(mk("impl_vs_spec", "double-star-elsewhere-accepted", TIE_DOC, &[g.clone()], &[], format!("glob {:?} opts {}: the documentation calls this use of `**` illegal, Glob::new accepts it (regex {:?})", g.text, g.bits(), b.regex())));
                 }
                 if f[4] != "1" {
                     // the printed class is not a valid regex class: compile_matcher would panic, GlobSet::new errors
@@ -478,6 +492,7 @@ fn run_case(globs_in: &[G], paths: &[Vec<u8>], drv: &mut Driver, rep: &mut Repor
                     }
                 }
                 doc_ok.push(f[3] == "1");
+                strat_names.push(f[1].split(':').next().unwrap_or("").to_string());
                 globs.push(g.clone());
                 built.push(b);
             }
@@ -522,7 +537,15 @@ fn run_case(globs_in: &[G], paths: &[Vec<u8>], drv: &mut Driver, rep: &mut Repor
         let iset = set.matches(os);
         let ione: Vec<bool> = matchers.iter().map(|m| m.is_match(os)).collect();
         let iany = set.is_match(os);
+        // the Candidate API (one prepared path reused for the set and for every matcher) must say the same
+        let cand = Candidate::new(os);
+        let cset = set.matches_candidate(&cand);
+        let cany = set.is_match_candidate(&cand);
+        let cone: Vec<bool> = matchers.iter().map(|m| m.is_match_candidate(&cand)).collect();
         let want: Vec<usize> = (0..ione.len()).filter(|&i| ione[i]).collect();
+        if cset != iset || cany != iany || cone != ione {
+            out.violations.push(mk("impl_vs_spec", "", "Candidate API (matches_candidate / is_match_candidate with one reused Candidate) vs the path API", &globs, &[p.clone()], format!("path {:?}: matches_candidate [{}] vs matches [{}], is_match_candidate {} vs {}, per glob {:?} vs {:?}", show(p), idx_list(&cset), idx_list(&iset), cany, iany, cone, ione)));
+        }
         let f: Vec<&str> = per[pi].split('|').collect();
         if f.len() != 5 {
             out.violations.push(mk("impl_vs_model", "", TIE_M, &globs, &[p.clone()], format!("model reply {:?}", per[pi])));
@@ -550,7 +573,21 @@ fn run_case(globs_in: &[G], paths: &[Vec<u8>], drv: &mut Driver, rep: &mut Repor
         }
         // the property, sentence 1, on the real code
         if iset != want || iany != !want.is_empty() {
-            let class = if dots_class(p) { "last-component-dot-or-dotdot" } else { "" };
+            // `last-component-dot-or-dotdot` is attributed only when its mechanism is at work for THIS path and set:
+            // the last component is '.' or '..' (file_name() is None), the set answers with a SUBSET of the
+            // individually matching globs, every missing glob sits in one of the three strategies that look at the
+            // basename / extension (BasenameLiteral, Extension, RequiredExtension), is_match is consistent with the
+            // set's own answer, and the model (which mirrors file_name) predicts exactly the set's answer
+            let missing_ok = iset.iter().all(|i| want.contains(i))
+                && want.iter().filter(|i| !iset.contains(i)).all(|&i| matches!(strat_names.get(i).map(|s| s.as_str()), Some("BasenameLiteral") | Some("Extension") | Some("RequiredExtension")));
+            let class = if dots_class(p) && missing_ok && iany == !iset.is_empty() && idx_list(&iset) == mset { "last-component-dot-or-dotdot" } else { "" };
+            if !quiet {
+                if class.is_empty() {
+                    rep.branch("class:none:unclassified-deviation");
+                } else {
+                    rep.branch(&format!("class:{}:attributed", class));
+                }
+            }
             out.violations.push(mk(
                 "impl_vs_spec",
                 class,
@@ -660,7 +697,7 @@ fn run_hist(steps: &[Step], drv: &mut Driver, rep: &mut Report, quiet: bool) -> 
                 if let Ok(b) = g.build() {
                     let m = drv.ask(&format!("c12.parse {}", g.sx()));
                     let f: Vec<&str> = m.split(' ').collect();
-                    if f.len() == 6 && f[0] == "ok" && f[4] == "1" {
+                    if f.len() == 7 && f[0] == "ok" && f[4] == "1" {
                         globs.push(g.clone());
                         built.push(b);
                     }
@@ -708,7 +745,9 @@ fn run_hist(steps: &[Step], drv: &mut Driver, rep: &mut Report, quiet: bool) -> 
             out.push(mk("impl_vs_spec", "", TIE_INTO, format!("step {} ({} globs, path {:?}): the reused Vec holds [{}] after the call (it held [{}] before), a fresh matches() gives [{}]", k, built.len(), show(&st.path), idx_list(&buf), idx_list(&before), idx_list(&fresh))));
         }
         if buf != want && fresh == want {
-            out.push(mk("impl_vs_spec", class, TIE_SET, format!("step {} path {:?}: the reused Vec holds [{}], the globs matching individually are [{}]", k, show(&st.path), idx_list(&buf), idx_list(&want))));
+            // a stale buffer is never the dots class's doing
+            let _ = class;
+            out.push(mk("impl_vs_spec", "", TIE_SET, format!("step {} path {:?}: the reused Vec holds [{}], the globs matching individually are [{}]", k, show(&st.path), idx_list(&buf), idx_list(&want))));
         }
         match m.strip_prefix("ok ") {
             Some(mb) => {
@@ -777,6 +816,54 @@ fn gen_hist(rng: &mut Rng) -> Vec<Step> {
         steps.push(Step { api, ctor, globs, path });
     }
     steps
+}
+
+/// The documentation's sentences about characters — "`?` matches any single character", "`[ab]` matches `a` or `b`
+/// where `a` and `b` are characters" — on characters beyond ASCII (Spec.GlobDoc.docOneChar): globs `?` and `[…]`
+/// listing characters from a small pool, paths that are one character.
+fn run_uchar(rng: &mut Rng, drv: &mut Driver, rep: &mut Report) {
+    const POOL: &[char] = &['a', 'b', 'é', 'ß', '日', '😀', '/'];
+    let ls = rng.chance(1, 2);
+    let ci = false;
+    let any = rng.chance(1, 4);
+    let members: Vec<char> = if any { vec![] } else { (0..rng.range(1, 3)).map(|_| *rng.pick(&POOL[..6])).collect() };
+    let text: String = if any { "?".into() } else { format!("[{}]", members.iter().collect::<String>()) };
+    let g = G { ci, ls, be: true, ea: false, text: text.clone() };
+    let b = match g.build() {
+        Ok(b) => b,
+        Err(_) => return,
+    };
+    let m = b.compile_matcher();
+    for &ch in POOL {
+        let p = ch.to_string().into_bytes();
+        rep.eval();
+        let imp = m.is_match(OsStr::from_bytes(&p));
+        let req = if any {
+            format!("c12.uchar {} any {}", ls as u8, hex(&p))
+        } else {
+            format!("c12.uchar {} (members {}) {}", ls as u8, members.iter().map(|c| (*c as u32).to_string()).collect::<Vec<_>>().join(" "), hex(&p))
+        };
+        let doc = drv.ask(&req) == "1";
+        if imp != doc {
+            // `non-ascii-char-handled-as-bytes`: attributed only when the mechanism is at work — the character in
+            // question (the path's, or a listed one) is beyond ASCII, and the model (which prints class members and `?`
+            // byte-wise, like glob.rs) predicts the real answer
+            let nonascii = !ch.is_ascii() || members.iter().any(|c| !c.is_ascii());
+            let reply = drv.ask(&format!("c12.set (globs {}) (paths {})", g.sx(), hex(&p)));
+            let model_one = reply.split_once(' ').map(|x| x.1.split('|').nth(1).unwrap_or("").to_string()).unwrap_or_default();
+            let model_pred = model_one == if imp { "1" } else { "0" };
+            let class = if nonascii && model_pred { "non-ascii-char-handled-as-bytes" } else { "" };
+            rep.branch(&if class.is_empty() { "class:none:unclassified-deviation".to_string() } else { format!("class:{}:attributed", class) });
+            rep.violation(Violation {
+                kind: "impl_vs_spec".into(),
+                class: class.into(),
+                tie: TIE_DOC.into(),
+                case: case_line(&[g.clone()], &[p.clone()]),
+                detail: format!("glob {:?} path {:?}: is_match = {}, the documentation's reading (characters) says {}", text, show(&p), imp, doc),
+            });
+            return;
+        }
+    }
 }
 
 /// run, shrink the first violation of each kind a little, report
@@ -852,6 +939,10 @@ fn main() {
                 rep.sample(hist_line(&steps));
             }
             run_hist_and_report(&steps, &mut drv, &mut rep);
+        }
+        // characters beyond ASCII against the documentation's sentences
+        for _ in 0..(if args.thorough { 2000 } else { 200 }) {
+            run_uchar(&mut rng, &mut drv, &mut rep);
         }
         // exhaustive small scope: every glob of ≤ 3 pieces from a fixed piece alphabet, under the four
         // (literal_separator, case_insensitive) settings, against every path over {a,b,.,/,-,A} up to the bound
